@@ -31,7 +31,8 @@ def main():
                 failed = run_internal([], [os.path.join(r["dir"], "ztr_run.py")] + r["args"])
         except BaseException as e:  # noqa: BLE001
             exc = "%s: %s" % (type(e).__name__, e)
-        out.append({"failed": failed, "exc": exc, "stdout": buf.getvalue()})
+        out.append({"failed": failed, "exc": exc, "stdout": buf.getvalue(), "pid": os.getpid(),
+                    "streams_ok": sys.stdout is sys.__stdout__ or type(sys.stdout).__name__ != "BufferedStandardStream"})
         purge(r["dir"])
     json.dump({"runs": out}, sys.stdout)
 
